@@ -4,7 +4,7 @@ Simulated dimension: the model timestep IS the simulated clock and systems are p
 simulator advances the clock through the real scheduler (execute(n), bare execute_systems()), registers
 systems late (also after their start, on and off a firing instant) and compares every firing with a
 reference timer wheel; a twin model advanced strictly one step at a time must log the same."""
-from .common import MAXSIZE, Model, Rec, RefSched, gen_prio, spec_defaults
+from .common import MAXSIZE, EqRec, Model, Rec, RefSched, gen_prio, spec_defaults
 
 PROPERTY = "C02"
 QUICK_RUNS = 20000
@@ -102,7 +102,7 @@ def generate(rng, tier):
             f = systems[by]["freq"]
             t = max(0, systems[by]["start"]) + f * rng.randint(0, max(1, horizon // (2 * f)))   # a firing instant of the spawner
             spawns.append({"by": by, "t": min(t, horizon - 1), "k": k})
-    return {"systems": systems, "ops": ops, "spawns": spawns}
+    return {"systems": systems, "ops": ops, "spawns": spawns, "value_eq": rng.random() < 0.12}
 
 
 class SID(str):
@@ -118,6 +118,7 @@ class World:
         self.reg = set()
         self.systems = (sc or {}).get("systems", [])
         self.spawns = (sc or {}).get("spawns", [])
+        self.value_eq = bool((sc or {}).get("value_eq"))
 
     def on_execute(self, s):
         t = self.model.systems.timestep
@@ -128,7 +129,7 @@ class World:
                 if spec["id"] not in self.reg and spec["freq"] >= 1:
                     if spec.get("strsub"):
                         spec = dict(spec, id=SID(spec["id"]))
-                    self.model.systems.add_system(Rec(spec, self.model, self))
+                    self.model.systems.add_system((EqRec if self.value_eq else Rec)(spec, self.model, self))
                     self.reg.add(spec["id"])
 
 
@@ -210,8 +211,9 @@ def execute(sc, ctx):
             rspec = dict(spec, id=SID(spec["id"])) if spec.get("strsub") else spec
             if spec.get("strsub"):
                 ctx.probe("str_subclass_id")
-            ctx.expect_ok("add", m.systems.add_system, Rec(rspec, m, w))
-            ctx.expect_ok("add-twin", twin.systems.add_system, Rec(rspec, twin, wt))
+            R_ = EqRec if sc.get("value_eq") else Rec       # noqa: N806
+            ctx.expect_ok("add", m.systems.add_system, R_(rspec, m, w))
+            ctx.expect_ok("add-twin", twin.systems.add_system, R_(rspec, twin, wt))
             w.reg.add(spec["id"])
             wt.reg.add(spec["id"])
             ref.add(spec)
